@@ -645,14 +645,14 @@ class PathRunner:
     RLIMIT_PER_MS = 5000     # z3 resource units per millisecond on the reference machine (measured: ~4.9M / s)
 
     @staticmethod
-    def guarded_check(s, ms, *assumptions):
+    def guarded_check(s, ms, *assumptions, wall=3):
         """check() of any solver under the deterministic budget (rlimit), with the wall-clock timeout and a watchdog that
         interrupts the context as safety nets (z3 does not always honour its own limits on quantified problems: a fresh
         solver was seen to run for more than 20 minutes on a 4 s budget)"""
         import threading
         s.set('rlimit', int(ms * PathRunner.RLIMIT_PER_MS))
-        s.set('timeout', int(ms * 3 + 500))
-        wd = threading.Timer(ms * 3 / 1000.0 + 2.0, s.ctx.interrupt)
+        s.set('timeout', int(ms * wall + 500))
+        wd = threading.Timer(ms * wall / 1000.0 + 2.0, s.ctx.interrupt)
         wd.daemon = True
         wd.start()
         try:
